@@ -91,7 +91,9 @@ CHECKS.update({
                   'transcribed from the code; a declarative definition of a valid block) exhaustively model-checked with TLC; every '
                   'block of the explored space concretised into a real types.Block with real signatures on a real chain state and '
                   'pushed through the real validation code (model-based testing), a sample proposed by a Byzantine proposer to '
-                  'running pbft.ConsensusState nodes, and real committed chains checked height by height by an independent oracle',
+                  'running pbft.ConsensusState nodes, and real committed chains checked height by height by an independent oracle; '
+                  'fast-sync slice: an edge cover of the TLC state graph of FastSync.tla (a peer serving tampered blocks) replayed on '
+                  'the real BlockchainReactor, every stored block and seen-commit compared with the source chain',
         level=('model_checking',
                'TLC proves, over all blocks with <=2 (3) simultaneous malformations and every combination of 11 commit-slot classes on '
                '3-4 validators with unequal powers, that the transcribed code logic accepts exactly the blocks the property-level '
